@@ -608,6 +608,29 @@ pub fn c06_ref_script_sizes<S: Src>(_s: &mut S) {
     assert!(failures.is_empty(), "{} reference-script scenarios are under-charged; first: {}", failures.len(), failures[0]);
 }
 
+// ---------------------------------------------------------------- C18 / C07: many distinct signers are all counted in the predicted size
+pub fn c18_many_signers<S: Src>(_s: &mut S) {
+    let mut failures: Vec<String> = Vec::new();
+    for n in [1usize, 15, 16, 17, 18, 40, 120, 255, 256, 257, 300] {
+        let mut tb = TransactionBuilder::new(&TransactionBuilderConfigBuilder::new().fee_algo(&LinearFee::new(&bn(44), &bn(155381))).pool_deposit(&bn(500_000_000)).key_deposit(&bn(2_000_000))
+            .max_value_size(5000).max_tx_size(200_000).coins_per_utxo_byte(&bn(4310)).build().unwrap());
+        let mut ib = TxInputsBuilder::new();
+        let keyhash = |i: usize| { let mut b = [0u8; 28]; b[0] = (i & 0xff) as u8; b[1] = (i >> 8) as u8; b[2] = 0x55; Ed25519KeyHash::from(b) };
+        for i in 0..n { let mut h = [3u8; 32]; h[0] = (i & 0xff) as u8; h[1] = (i >> 8) as u8; ib.add_key_input(&keyhash(i), &TransactionInput::new(&TransactionHash::from(h), 0), &Value::new(&bn(5_000_000))); }
+        tb.set_inputs(&ib);
+        tb.set_fee(&bn(2_000_000));
+        let predicted = match tb.full_size() { Ok(p) => p, Err(_) => continue };
+        let tx = match tb.build_tx_unsafe() { Ok(t) => t, Err(_) => continue };
+        let mut ws = tx.witness_set();
+        let mut vk = Vkeywitnesses::new();
+        for i in 0..n { let mut b = [9u8; 32]; b[30] = (i >> 8) as u8; b[31] = (i & 0xff) as u8; vk.add(&Vkeywitness::new(&Vkey::new(&PublicKey::from_bytes(&b).unwrap()), &sig())); }
+        ws.set_vkeys(&vk);
+        let signed = Transaction::new(&tx.body(), &ws, tx.auxiliary_data()).to_bytes().len();
+        if predicted < signed { failures.push(format!("{} inputs of {} distinct keys: predicted size {} is below the size {} of the transaction signed by all of them", n, n, predicted, signed)); }
+    }
+    assert!(failures.is_empty(), "{} many-signer scenarios under-predict the signed size; first: {}", failures.len(), failures[0]);
+}
+
 // ---------------------------------------------------------------- C09 first clause: auxiliary-data hash
 fn blake2b256_ref(data: &[u8]) -> [u8; 32] {
     use cryptoxide::hashing::blake2b::Blake2b;
